@@ -129,13 +129,13 @@ func genPositionsWalk(r *rand.Rand, n int) []Step {
 			for k := 0; k < 1+r.Intn(3); k++ {
 				reqs = append(reqs, []any{pick(r, users...), float64(1 + r.Intn(nextPerp))})
 			}
-			st = append(st, Step{"a": "perpClosePositions", "u": "bot", pick(r, "liq", "sl", "tp"): reqs})
+			st = append(st, closeLists(r, "perpClosePositions", reqs, "liq", "sl", "tp"))
 		case 8:
 			reqs := []any{}
 			for k := 0; k < 1+r.Intn(3); k++ {
 				reqs = append(reqs, []any{pick(r, users...), float64(1 + r.Intn(nextLev))})
 			}
-			st = append(st, Step{"a": "levClosePositions", "u": "bot", pick(r, "liq", "sl"): reqs})
+			st = append(st, closeLists(r, "levClosePositions", reqs, "liq", "sl"))
 		case 9:
 			st = append(st, Step{"a": "swapIn", "u": u, "p": float64(1 + r.Intn(2)), "din": pick(r, "uusdc", ""), "sz": pick(r, "s1", "s2", "s3"), "limit": "loose"})
 		case 10:
@@ -375,6 +375,25 @@ var wrapFamilies = map[string]bool{"ledger": true, "positions": true, "chain": t
 var wrapable = map[string]bool{"swapIn": true, "swapOut": true, "join": true, "exit": true, "bond": true, "unbond": true, "levOpen": true, "levClose": true,
 	"perpOpen": true, "perpClose": true, "perpClosePositions": true, "levClosePositions": true, "claim": true, "send": true, "spotOrder": true,
 	"execOrders": true, "commitClaimed": true, "uncommit": true, "incentive": true, "createAssetInfo": true, "cancelSpot": true, "perpOrder": true}
+
+// closeLists builds a bot's close-positions step: the requests go into one of the message's lists; one time in four the SAME
+// requests are named in a second list as well (a bot that lists a position both for liquidation and for its stop-loss), and
+// one time in four an entry is repeated within its list.
+func closeLists(r *rand.Rand, action string, reqs []any, lists ...string) Step {
+	st := Step{"a": action, "u": "bot"}
+	first := pick(r, lists...)
+	if r.Intn(4) == 0 && len(reqs) > 0 {
+		reqs = append(reqs, reqs[r.Intn(len(reqs))])
+	}
+	st[first] = reqs
+	if r.Intn(4) == 0 {
+		second := pick(r, lists...)
+		if second != first {
+			st[second] = reqs
+		}
+	}
+	return st
+}
 
 func wrapRolledBack(r *rand.Rand, st []Step, oneIn int) {
 	for i := range st {
